@@ -55,6 +55,18 @@ def burst_scenario(rng):
     return lines
 
 
+def big_burst_scenario(rng):
+    """more than a thousand lines accepted before the background thread gets to run (it is starved, or the writer is slow),
+    then producers that keep sending while that batch is being written"""
+    n = rng.choice([1025, 1030, 1100, 1500, 2100])
+    lines = ["LOGGER bg 6 %s" % rng.choice(["iso", "rfc"]), "PRE B%d:%d:%d" % (n, rng.randint(1, 6), rng.choice([0, 1, 3]))]
+    for k in range(1, rng.randint(1, 3) + 1):
+        lines.append("PRODUCER %d %s" % (k, " ".join("L%d:%d:0:0" % (rng.randint(1, 6), rng.choice([0, 1, 3])) for _ in range(rng.randint(2, 8)))))
+    if rng.random() < 0.5:
+        lines.append("POST L3:2:0")
+    return lines
+
+
 def random_scenario(rng):
     df = rng.choice(["iso", "iso", "rfc"])
     lines = ["LOGGER %s %d %s%s" % (rng.choice(["bg", "bg", "fg", "fg", "na", "std", "stdf"]), rng.randint(0, 6), df,
@@ -157,6 +169,17 @@ def run(ctx):
     # data-race scan on the ThreadSanitizer build (what a serialising scheduler cannot see)
     scan = [b for b in blocks if not b[0].startswith("dfs")][: (120 if not thorough else 1500)]
     pipeline.race_scan(ctx, "logging_scenario", "logging_scenario.c", scan)
+    # bursts of more than a thousand lines at one wake-up of the background thread: long executions (one event per call and
+    # per line), schedules that starve the background thread first and then interrupt it while it writes the batch
+    big = []
+    for _ in range(24 if not thorough else 300):
+        horizon = rng.choice([12000, 20000, 30000])
+        big.append((rng.choice(["pct %d 2 %d", "pct %d 3 %d", "pct %d 5 %d"]) % (rng.randrange(1, 10 ** 6), horizon), big_burst_scenario(rng)))
+    for pol, sc in big:
+        ctx.distinct.add(hash(pol + "|" + "\n".join(sc)))
+    n2, _acc2 = pipeline.drive_vsched(ctx, exe, big, SPEC_DIR, "LogTrace", "Trace.cfg", label="lgburst", env={"VS_STEP_CAP": "200000"})
+    ctx.extra["big_burst_executions"] = n2
+    n += n2
     ctx.evaluations += n
     ctx.distinct_extra += max(0, n - len(blocks))
     ctx.extra["executions"] = n
